@@ -695,6 +695,18 @@ def emit_fn(spec, impl_item, linemap_cb):
         for z in range(p, sig_end):
             if toks[z][0] == 'ident' and toks[z][1] == 'G':
                 sed.replace(toks[z][2], toks[z][3], ('<%s>' % gty14) if toks[z + 1][1] == '::' else gty14)
+    # T13 renames also apply to the signature (e.g. `Self::Item` of a re-homed trait method -> the concrete type)
+    for kind_, pat_, repl_ in spec.abstracts:
+        if kind_ != 'T13':
+            continue
+        pt_ = [t[1] for t in code_tokens(lex(pat_))]
+        z = p
+        while pt_ and z + len(pt_) <= sig_end:
+            if [t[1] for t in toks[z:z + len(pt_)]] == pt_:
+                sed.replace(toks[z][2], toks[z + len(pt_) - 1][3], repl_)
+                z += len(pt_)
+            else:
+                z += 1
     if 'T5name' in rules:
         sed.replace(toks[it.kw + 1][2], toks[it.kw + 1][3], rules['T5name'][0])
     if arrow is not None:
